@@ -49,6 +49,9 @@ LEVEL = {
  "C11": ("model_checking", "stateless model checking of the implementation under a controlled scheduler (preemption-bounded DFS over choice sequences at lock / pool / callback points), plus a separate free-running race-detector pass",
          "all interleavings of 2 (and preemption-bounded interleavings of 3) real reader goroutines over one shared segment, for every pair/triple of a 10-operation menu and every sequential prefix history of length <= 1, are executed on the real code; each call must return its sequential answer, callback bytes must stay stable, no pooled object may have two owners; failing schedules are replayed twice",
          "scheduling points at synchronisation operations only; data races between them are left to the free-running -race pass (dynamic detection, reported as such)", "4 C11"),
+ "C20": ("model_checking", "explicit-state enumeration of reference-operation histories on a real opened segment, plus stateless model checking of concurrent holders under a controlled scheduler and a free-running race-detector pass",
+         "every AddRef/DecRef/Close history up to the bound is executed on a real mmap-opened segment with a full read in every state and /proc inspection of mapping and descriptor; concurrent holders are explored over all interleavings (2 holders) / preemption-bounded (3 holders) at the segment's lock points",
+         "holders only take references while holding one; /proc/self/maps and /proc/self/fd are the release oracle; reference count read through a verif-tagged hook", "4 C20"),
  "C01": ("exploration", "bounded-exhaustive input enumeration on the implementation vs. reference model",
          "every batch of a stated finite alphabet (cell menu per document x field, N<=3; column and chunk-boundary families) x chunk modes x both build tags is built by the real code and its complete term/postings content compared with an independent reference model; exhaustive within the bounds, no sampling",
          "reference model in harness/ref; inputs only inside the alphabet; Go map order not enumerable (semantic oracle)", "4 C01"),
